@@ -679,11 +679,16 @@ def terminal_defs(ctx, F, n: ast.Name, depth: int = 8):
     return out
 
 
+def origins(ctx, F, n) -> set:
+    """Identity of what a name may denote: (defining node, defined name) of its terminal definitions - the name matters because all
+    parameters share one defining node (`arguments`) and a tuple assignment defines several names at once."""
+    return {(id(d), nm) for d, _, nm in terminal_defs(ctx, F, n)}
+
+
 def same_origin(ctx, F, a, b) -> bool:
     if not (isinstance(a, ast.Name) and isinstance(b, ast.Name)):
         return False
-    da = {id(d) for d, _, _ in terminal_defs(ctx, F, a)}
-    db = {id(d) for d, _, _ in terminal_defs(ctx, F, b)}
+    da, db = origins(ctx, F, a), origins(ctx, F, b)
     return bool(da) and da == db
 
 
@@ -1104,7 +1109,7 @@ def r1_private_copy_uncoupled(ctx, rid):
     top = run.func.value
     tds = terminal_defs(ctx, gs, top)
     ctx.require(tds, f"{rid}: `{top.id}` has no definition in grid_search")
-    family = {id(d) for d, _, _ in tds}
+    family = {(id(d), nm) for d, _, nm in tds}
     for d, v, nm in sorted([x for x in tds if not isinstance(x[0], ast.arguments)], key=lambda t: getattr(t[0], "_ord", -1)):
         label = f"top-level circuit: {norm(d)}"
         if isinstance(v, ast.Call) and isinstance(v.func, ast.Name) and getattr(ctx.repo.resolve_name(gs.module, v.func.id), "name", None) == "CircuitTemplate":
@@ -1115,7 +1120,7 @@ def r1_private_copy_uncoupled(ctx, rid):
                 ctx.violation(rid, gs, d, f"the top-level circuit is created with content ({sorted(kws - {'name', 'path', 'description'})}): "
                                           f"the swept circuits would not be the only, uncoupled members", label=label)
         elif isinstance(v, ast.Call) and call_name(v) == "update_template" and isinstance(v.func, ast.Attribute) \
-                and isinstance(v.func.value, ast.Name) and {id(x) for x, _, _ in terminal_defs(ctx, gs, v.func.value)} <= family:
+                and isinstance(v.func.value, ast.Name) and origins(ctx, gs, v.func.value) <= family:
             kws = {k.arg for k in v.keywords}
             if kws <= {"circuits", "in_place"} and not v.args:
                 ctx.ok(rid, gs, d, "the top-level circuit is extended with a sub-circuit only (no edges between rows)", label=label)
@@ -1132,7 +1137,7 @@ def r1_private_copy_uncoupled(ctx, rid):
     # no other use of the top-level circuit
     for n in ordered(walk_shallow(gs.node)):
         if isinstance(n, ast.Name) and isinstance(n.ctx, ast.Load) and comp_generator_of(n) is None \
-                and {id(x) for x, _, _ in terminal_defs(ctx, gs, n)} & family:
+                and origins(ctx, gs, n) & family:
             p = parent(n)
             gp = parent(p) if p is not None else None
             if isinstance(p, ast.Attribute) and isinstance(gp, ast.Call) and gp.func is p and p.attr in ("update_template", "run"):
@@ -1886,8 +1891,7 @@ def r4_all_prefix_and_run(ctx, rid):
                     and isinstance(he.container, ast.Name) and is_param(ctx, gs, he.container, role) \
                     and isinstance(oe.container, ast.Name) and is_param(ctx, gs, oe.container, role)
                 tgt = st.targets[0].value if isinstance(st, ast.Assign) and isinstance(st.targets[0], ast.Subscript) else None
-                in_place = isinstance(tgt, ast.Name) and bool({id(d) for d, _, _ in terminal_defs(ctx, gs, tgt)}
-                                                              & {id(d) for d, _, _ in terminal_defs(ctx, gs, he.container)})
+                in_place = isinstance(tgt, ast.Name) and bool(origins(ctx, gs, tgt) & origins(ctx, gs, he.container))
                 if src_ok and in_place and not (he.snapshot and oe.snapshot):
                     # iterating while storing into the same dict requires a snapshot of the items
                     src_ok = False
